@@ -96,6 +96,11 @@ Fixpoint exp (fuel : nat) (s : tspec) (t : nat) : out * list tr * nat :=
       | (Exc _, failed, None) => (Exc (5000 + n), [TR n t (Some (5000 + n)) failed], 5000 + n)
       | (Exc e, [one], Some (_, ev)) => (Exc e, TR n t None [] :: one, e)
       | (Exc e, failed, Some _) => (Exc e, [TR n t (Some e) failed], e) end
+  (* a guard: the failing sub-spec below it — or, when the sub-spec succeeded and the guard itself refuses, the guard alone *)
+  | Guard n ok kid =>
+      match exp fuel kid t with
+      | (Ret _, _, _) => if ok then (Ret t, [], 0) else (Exc (6000 + n), [TR n t (Some (6000 + n)) []], 6000 + n)
+      | (Exc e, trk, ek) => (Exc e, above n t e trk ek, e) end
   end end.
 
 Definition expected (s : tspec) : out * list tr := let '(o, trs, _) := exp 100 s root_target in (o, trs).
@@ -136,12 +141,14 @@ Fixpoint relabel (fuel : nat) (s : tspec) (n : nat) : tspec * nat :=
           | (k, v) :: r => let '(k', n1) := relabel fuel k n in let '(v', n2) := relabel fuel v n1 in
                            let '(r', n3) := pairs r n2 in ((k', v') :: r', n3) end) cs (S n) in
       (Switch n cs', m)
+  | Guard _ ok k => let '(k', m) := relabel fuel k (S n) in (Guard n ok k', m)
   end end.
 Definition numbered (s : tspec) : tspec := fst (relabel 10 s 1).
 
 Definition lists12 {A} (l : list A) : list (list A) := map (fun x => [x]) l ++ flat_map (fun x => map (fun y => [x; y]) l) l.
 Definition level (prev : list tspec) : list tspec :=
-  prev ++ flat_map (fun ks => [Nest 0 ks; Chain 0 ks; Alt 0 ks; OrS 0 ks]) (lists12 prev)
+  prev ++ map (Guard 0 false) prev ++ map (Guard 0 true) prev
+       ++ flat_map (fun ks => [Nest 0 ks; Chain 0 ks; Alt 0 ks; OrS 0 ks]) (lists12 prev)
        ++ map (fun kv => Switch 0 [kv]) (list_prod prev prev).
 Definition leaves : list tspec := [Leaf 0 true; Leaf 0 false; SkipLeaf 0].
 Definition shapes1 : list tspec :=
